@@ -54,7 +54,7 @@ package measurement
 //@   requires factorsok(ut)
 //@   ensures family: result2 <==> known(ut, normunit(fromUnitStr))
 //@   ensures unknown: !result2 ==> result0 == 0.0 && result1 == ""
-//@   ensures explicit: result2 && toUnitStr != "minimum" && toUnitStr != "auto" && known(ut, normunit(toUnitStr)) ==>
+//@   ensures slow_explicit: result2 && toUnitStr != "minimum" && toUnitStr != "auto" && known(ut, normunit(toUnitStr)) ==>
 //@       exists i int, k int :: 0 <= i && i < len(ut.Units) && 0 <= k && k < len(ut.Units)
 //@         && isalias(ut, i, normunit(fromUnitStr)) && isalias(ut, k, normunit(toUnitStr))
 //@         && same(result0, float64(value) * ut.Units[i].Factor / ut.Units[k].Factor) && result1 == ut.Units[k].CanonicalName
